@@ -27,6 +27,7 @@ import . "github.com/pbenner/autodiff/logarithmetic"
 
 import . "github.com/pbenner/autodiff"
 import . "github.com/pbenner/threadpool"
+import   "github.com/pbenner/autodiff/verifhook"
 
 /* -------------------------------------------------------------------------- */
 
@@ -135,6 +136,8 @@ func (obj *NegativeBinomialEstimator) Estimate(gamma ConstVector, p ThreadPool) 
   //////////////////////////////////////////////////////////////////////////////
   if gamma == nil {
     if err := p.AddRangeJob(0, x.Dim(), g, func(i int, p ThreadPool, erf func() error) error {
+      verifhook.Yield("scalarEstimator.negativeBinomial.job")
+      verifhook.Event("scalarEstimator.negativeBinomial", i, p.GetThreadId())
       obj.NewObservation(x.ConstAt(i), nil, p)
       return nil
     }); err != nil {
@@ -142,12 +145,15 @@ func (obj *NegativeBinomialEstimator) Estimate(gamma ConstVector, p ThreadPool) 
     }
   } else {
     if err := p.AddRangeJob(0, x.Dim(), g, func(i int, p ThreadPool, erf func() error) error {
+      verifhook.Yield("scalarEstimator.negativeBinomial.job")
+      verifhook.Event("scalarEstimator.negativeBinomial", i, p.GetThreadId())
       obj.NewObservation(x.ConstAt(i), gamma.ConstAt(i), p)
       return nil
     }); err != nil {
       return err
     }
   }
+  verifhook.Yield("scalarEstimator.negativeBinomial.queued")
   if err := p.Wait(g); err != nil {
     return err
   }
